@@ -5,6 +5,7 @@ import CwPlus.Lemmas.Ics20TotalSent
 import CwPlus.Lemmas.Ics20Ledger
 import CwPlus.Lemmas.Ics20Honest
 import CwPlus.Props.C18
+import CwPlus.Props.C11
 /-!
 # C12 — cw20-ics20: channel balance tracks vouchers exactly; error acks change nothing
 
@@ -1122,5 +1123,46 @@ theorem transfer_escrow_effects {w w' : World} {blk : Block} {o : Outcome} :
 /-- the first transfer of the demo history moves 40 T1 from alice into the contract -/
 example : (w0.step b0 (.sendCw20 "alice" "T1" 40 (some tm))).tokBal "T1" "ics20" = 40 ∧
     (w0.step b0 (.sendCw20 "alice" "T1" 40 (some tm))).tokBal "T1" "alice" = 60 := by decide
+
+/-! ## Frame of a successful redemption -/
+
+/-- **C12, success_ack_frame** (clause 2, "…and the balance reduced by it", with everything else pinned
+down): with a success acknowledgement, exactly the packet's amount moved from the contract to the
+receiver and every other bank and cw20 balance is unchanged (`C11.Moved`); only the entry of the redeemed
+(channel, denomination) changed in the books — every other `outstanding`, and every `total_sent`
+including that entry's, is as before; allow list, admin, config, channel list and stored version are
+untouched; `REPLY_ARGS` holds the redeemed triple. -/
+theorem success_ack_frame {w w' : World} {blk : Block} {p : PacketIn} {rv tv f : Bool} {o : Outcome}
+    (h : w.exec blk (.recv p rv tv f) = .ok (w', o)) (ha : o.ack = some .success) (hrs : p.receiver ≠ w.self) :
+    ∃ amt d, p.amount = some amt ∧ p.voucher = some (p.srcPort, p.srcChan, d) ∧
+      C11.Moved w w' d p.receiver amt ∧
+      (∀ k, k ≠ (p.destChan, d) → outAt w'.st.chan k = outAt w.st.chan k) ∧
+      (∀ k, totAt w'.st.chan k = totAt w.st.chan k) ∧
+      w'.st.allow = w.st.allow ∧ w'.st.admin = w.st.admin ∧ w'.st.config = w.st.config ∧
+      w'.st.channels = w.st.channels ∧ w'.st.version = w.st.version ∧
+      w'.st.replyArgs = some ⟨p.destChan, d, amt⟩ ∧
+      o.sub = some ⟨p.receiver, amt, d, C18.expectedGas w.st d, RECEIVE_ID⟩ := by
+  obtain ⟨s1, sub, hd, hp⟩ := (success_ack_iff_paid h).mp ha
+  obtain ⟨amt, d, ch, hamt, hv, hred, rfl, hto, hsa, hsd, hid, g, hg, hgas⟩ := doReceive_spec hd
+  obtain ⟨cs, _, _, _, ho, ht⟩ := reduceBalance_spec hred
+  have hst := (payout_frame hp).1
+  have hm := C11.payout_moved hp (by rw [hto]; exact hrs)
+  rw [hsd, hto, hsa] at hm
+  have hsub : o.sub = some sub := by
+    rcases exec_recv_cases h with ⟨⟨e, he⟩, _⟩ | ⟨s1', sub', hd', hsub, _⟩
+    · rw [hd] at he; cases he
+    · rw [hd] at hd'; cases hd'; exact hsub
+  have hsubeq : sub = ⟨p.receiver, amt, d, C18.expectedGas w.st d, RECEIVE_ID⟩ := by
+    cases sub
+    simp only at hto hsa hsd hid hgas
+    rw [hto, hsa, hsd, hid, hgas, (C18.checkGasLimit_spec hg).1]
+  refine ⟨amt, d, hamt, hv, ?_, ?_, ?_, ?_, ?_, ?_, ?_, ?_, ?_, by rw [hsub, hsubeq]⟩
+  · cases d <;> exact hm
+  · intro k hk; rw [hst]; simp only; rw [ho k]; simp [hk]
+  · intro k; rw [hst]; exact ht k
+  all_goals rw [hst]
+
+example : ∃ w' o, (run w0 (hist.take 1)).exec b0 (.recv (pkt (.cw20 "T1") 15) true true false) = .ok (w', o) ∧
+    o.ack = some .success ∧ w'.tokBal "T1" "alice" = 75 := ⟨_, _, rfl, by decide, by decide⟩
 
 end CwPlus.Props.C12
